@@ -43,6 +43,78 @@ def ret_vc(T, N, batch_first, gamma_zero):
                            "torch.pow with concrete non-negative integer exponents = repeated product; matmul = sums of products"])
 
 
+def ret_p_vc(batch_first):
+    """P rung: horizon T and batch size N SYMBOLIC. The matrix product has the assumed partial-sum contract of
+    vf/pyvc/symtensor.py; torch.pow the assumed contract pow(g, 0) = 1, pow(g, e + 1) = g * pow(g, e). Two inductions over the
+    summation index (base / step obligations each, applied outside the solver):
+      Z(i, j):  j <= i          ->  S_i(j) = 0                      (the discount matrix is triangular)
+      C(j):     i0 < T - 1 and i0 + 1 <= j <= T ->  S_i0(j) = r[i0] + g * S_(i0+1)(j)
+    give R[i0] = r[i0] + g * R[i0 + 1] for every i0 < T - 1 and R[T - 1] = r[T - 1], for a skolem batch element."""
+    import pydrobert.torch._rl as RL
+    from vf.pyvc import symtensor as stn
+
+    T, N, I0, I1, J0, N0 = z3.Ints("T N i0 i1 j0 n0")
+    RW = z3.Function("r", z3.IntSort(), z3.IntSort(), z3.RealSort())  # r(t, n)
+    name = "time_distributed_return[symbolic T, N; batch_first=%s]" % batch_first
+
+    def thunk(I):
+        I.stubs.update(stn.stubs())
+        r = stn.ST((N, T), lambda b, a: RW(ip.to_z3(a), ip.to_z3(b)), "float") if batch_first else stn.ST((T, N), lambda a, b: RW(ip.to_z3(a), ip.to_z3(b)), "float")
+        out = I.call(RL.time_distributed_return, [r, G, batch_first], {})
+        sums = I.ex.ghost.get("sums", [])
+        if not sums:
+            return out  # gamma = 0: the rewards themselves
+        sm = sums[-1]
+        PS = (lambda i, j: sm["S"](N0, i, j)) if batch_first else (lambda i, j: sm["S"](i, N0, j))
+        step = (lambda i, j: sm["step"](N0, i, j)) if batch_first else (lambda i, j: sm["step"](i, N0, j))
+        base = (lambda i: sm["base"](N0, i)) if batch_first else (lambda i: sm["base"](i, N0))
+        I.ex.oblige("matmul.sums_over_the_horizon", sm["T"] == T)
+        # Z: zero prefix, by induction over j for a skolem row i1
+        zfml = lambda i, j: z3.Implies(z3.And(0 <= j, j <= i, i < T), PS(i, j) == 0)
+        I.ex.instance(base(I1))
+        I.ex.instance(step(I1, J0))
+        I.ex.oblige("Z.base", zfml(I1, z3.IntVal(0)))
+        I.ex.oblige("Z.step", z3.Implies(z3.And(0 <= J0, J0 + 1 <= I1, I1 < T, zfml(I1, J0)), zfml(I1, J0 + 1)))
+        ii, jj = z3.Ints("i_z j_z")
+        I.ex.assume(z3.ForAll([ii, jj], zfml(ii, jj)))
+        for i in (I0, I0 + 1, T - 1):
+            I.ex.instance(zfml(i, i))
+        # C: the recurrence on partial sums, by induction over j for the skolem row i0
+        cfml = lambda j: z3.Implies(z3.And(0 <= I0, I0 < T - 1, I0 + 1 <= j, j <= T), PS(I0, j) == RW(I0, N0) + G * PS(I0 + 1, j))
+        I.ex.instance(step(I0, I0))
+        for j in (J0,):
+            I.ex.instance(step(I0, j))
+            I.ex.instance(step(I0 + 1, j))
+        for x in stn.pow_instances(I, J0 - I0 - 1):
+            I.ex.instance(x)
+        I.ex.oblige("C.base", z3.Implies(I0 + 1 <= T, cfml(I0 + 1)))
+        I.ex.oblige("C.step", z3.Implies(z3.And(I0 + 1 <= J0, J0 < T, cfml(J0)), cfml(J0 + 1)))
+        I.ex.assume(z3.ForAll([jj], cfml(jj)))
+        I.ex.instance(cfml(T))
+        I.ex.instance(step(T - 1, T - 1))
+        return out
+
+    def post(p):
+        if not api.returns(p) or not hasattr(p.value, "elem"):
+            return False
+        at = (lambda i: ip.to_z3(p.value.elem(N0, i))) if batch_first else (lambda i: ip.to_z3(p.value.elem(i, N0)))
+        shape = tuple(p.value.shape)
+        want = (N, T) if batch_first else (T, N)
+        return [("result_shape", z3.And(ip.to_z3(shape[0]) == want[0], ip.to_z3(shape[1]) == want[1])),
+                ("bellman_recurrence", z3.Implies(z3.And(0 <= I0, I0 < T - 1), at(I0) == RW(I0, N0) + G * at(I0 + 1))),
+                ("last_step_is_its_reward", z3.Implies(T >= 1, at(T - 1) == RW(T - 1, N0)))]
+
+    return VC("C18.P.return_recurrence", name, M, "time_distributed_return", thunk, pre=[T >= 0, N >= 1, 0 <= N0, N0 < N], posts=[("bellman", post)],
+              inputs={"T": T, "N": N, "gamma": G}, timeout_ms=30000,
+              assumptions=["matrix product over a symbolic inner extent = partial sums S(0) = 0, S(j + 1) = S(j) + a[i, j] * b[j, n] (assumed contract); torch.pow(g, e) for integer-valued e >= 0: pow(g, 0) = 1, pow(g, e + 1) = g * pow(g, e) (assumed contract)",
+                           "two inductions over the summation index are applied outside the solver (their base and step are obligations)",
+                           "float arithmetic treated as real arithmetic (under/overflow of the discount factors is the bounded driver's: KF-C18-2)", "one skolem batch element; tensors as index functions (vf/pyvc/symtensor.py)"])
+
+
+def p_vcs(ctx):
+    return [ret_p_vc(False), ret_p_vc(True)]
+
+
 def vcs(ctx):
     out = []
     for T in ((1, 2, 3, 4) if ctx.quick else (1, 2, 3, 4, 5, 6)):
